@@ -443,6 +443,85 @@ Lemma versions_monotone k s ops cr v :
   exists v', ver_of_crew (run k s ops) cr = Some v' /\ (v <= v')%nat.
 Proof. intros R F H. apply (run_ext k ops s (reachable_inv k s R) F cr v H). Qed.
 
+(* the invariant some theorems take as a hypothesis is established: it holds initially, every operation preserves it, every reachable state has it *)
+Lemma inv_established : Inv init /\ (forall k s o, Inv s -> Inv (fst (step k s o))) /\ (forall k s, reachable k s -> Inv s).
+Proof. split; [exact init_inv|split; [exact step_inv|exact reachable_inv]]. Qed.
+
+(* ---------- contents changed => version changed (review round: the keys clause of `mono`, for whole histories) ---------- *)
+Definition extk (s s' : state) : Prop :=
+  forall cr v, ver_of_crew s cr = Some v ->
+    exists v', ver_of_crew s' cr = Some v' /\ (v <= v')%nat /\ (v' = v -> keys (owner s' cr) = keys (owner s cr)).
+Lemma extk_refl s : extk s s.
+Proof. intros cr v H; exists v; auto. Qed.
+Lemma extk_trans a b c : extk a b -> extk b c -> extk a c.
+Proof.
+  intros H1 H2 cr v H. destruct (H1 _ _ H) as (v1 & E1 & L1 & K1). destruct (H2 _ _ E1) as (v2 & E2 & L2 & K2).
+  exists v2; repeat split; auto; [lia|]. intros Q. assert (v1 = v) by lia. assert (v2 = v1) by lia. rewrite K2, K1; auto.
+Qed.
+Lemma extk_seth s s' i h : extk s s' -> extk s (seth s' i h).
+Proof. intros H cr v E. apply (H cr v E). Qed.
+Lemma extk_setc s c x' : Inv s -> mono (getc s c) x' -> extk s (setc s c x').
+Proof.
+  intros I (m1 & m2 & m3) cr v H. pose proof (inv_crews _ I) as D.
+  unfold ver_of_crew, owner in *. destruct c; simpl in *.
+  - destruct (Nat.eqb (crew (w0 s)) cr); [exists v; auto|].
+    destruct (Nat.eqb (crew (w1 s)) cr) eqn:E1; [|discriminate]. inversion H; subst. rewrite m1, E1.
+    eexists; split; [reflexivity|split; [lia|]]. intros Q. apply m3. exact Q.
+  - rewrite m1. destruct (Nat.eqb (crew (w0 s)) cr).
+    + inversion H; subst. eexists; split; [reflexivity|split; [lia|]]. intros Q. apply m3. exact Q.
+    + destruct (Nat.eqb (crew (w1 s)) cr); [|discriminate]. exists v; auto.
+Qed.
+Lemma extk_swap s : Inv s -> extk s (swapst s).
+Proof.
+  intros I cr v H. pose proof (inv_crews _ I) as D. exists v.
+  unfold ver_of_crew, owner in *; simpl.
+  destruct (Nat.eqb_spec (crew (w0 s)) cr), (Nat.eqb_spec (crew (w1 s)) cr); try congruence; auto.
+Qed.
+Lemma extk_setc_seth s c x' i h : Inv s -> mono (getc s c) x' -> extk s (seth (setc s c x') i h).
+Proof. intros. apply extk_seth, extk_setc; auto. Qed.
+Lemma extk_put s c a' b' :
+  Inv s -> mono (getc s c) a' -> mono (getc s (negb c)) b' -> extk s (setc (setc s c a') (negb c) b').
+Proof.
+  intros I Ma Mb. eapply extk_trans; [apply (extk_setc s c a' I Ma)|].
+  apply extk_setc; [apply Inv_setc; auto|]. rewrite getc_setc_other. exact Mb.
+Qed.
+Lemma extk_put_swap s c a' b' :
+  Inv s -> mono (getc s (negb c)) a' -> mono (getc s c) b' -> extk s (setc (setc s c a') (negb c) b').
+Proof.
+  intros I Ma Mb.
+  replace (setc (setc s c a') (negb c) b') with (setc (setc (swapst s) c a') (negb c) b') by (destruct c; reflexivity).
+  eapply extk_trans; [apply (extk_swap s I)|]. apply extk_put; [apply Inv_swap; auto| |]; destruct c; simpl in *; auto.
+Qed.
+Ltac extk_tac I :=
+  first [ apply extk_refl
+        | apply extk_seth; apply extk_refl
+        | apply extk_setc_seth; [exact I|mono_tac]
+        | apply extk_setc; [exact I|mono_tac]
+        | apply extk_put; [exact I|mono_tac|mono_tac]
+        | apply extk_put_swap; [exact I|mono_tac|mono_tac]
+        | apply extk_swap; exact I ].
+Lemma step_extk k s o : Inv s -> is_assign o = false -> extk s (fst (step k s o)).
+Proof.
+  intros I NA. destruct o; try discriminate NA; cbn [step];
+  unfold do_find, do_begin, do_end, do_bound, do_deref, do_inc, do_dec, do_addat, do_rmat,
+    do_rmrange, do_reset, do_chk, do_insert, do_rmkey, do_rmif, do_clear, do_reserve, do_merge, merge_each, do_swap, tree_end;
+  cbv zeta; dmatch; cbn [fst snd]; extk_tac I.
+Qed.
+Lemma run_extk k ops : forall s, Inv s -> Forall (fun o => is_assign o = false) ops -> extk s (run k s ops).
+Proof.
+  induction ops as [|o t IH]; intros s I F; simpl; [apply extk_refl|]. inversion F; subst.
+  eapply extk_trans; [apply (step_extk k s o I); auto|apply IH; [apply step_inv, I|auto]].
+Qed.
+(* for every reachable state and every history without assignments: a container (identified by its version cell) whose version is
+   the same afterwards holds the same keys -- i.e. ANY change of the contents comes with a version change *)
+Lemma contents_change_bumps_version k s ops cr v :
+  reachable k s -> Forall (fun o => is_assign o = false) ops -> ver_of_crew s cr = Some v ->
+  ver_of_crew (run k s ops) cr = Some v -> keys (owner (run k s ops) cr) = keys (owner s cr).
+Proof.
+  intros R F H E. destruct (run_extk k ops s (reachable_inv k s R) F cr v H) as (v' & E' & _ & K).
+  rewrite E in E'. inversion E'; subst. apply K. reflexivity.
+Qed.
+
 (* ---------- stale handles ---------- *)
 Definition stale (s : state) (h : handle) : Prop :=
   match hcrew h with Some cr => ver_of_crew s cr <> Some (hsnap h) | None => False end.
